@@ -143,8 +143,11 @@ func sendHTTPResponse(result runtime.Element, err error, w http.ResponseWriter) 
 				}
 
 				// write to response directly
-				for k, v := range respHeader.(*value.HashMap).GetValue() {
-					w.Header().Add(k, v.String())
+				// add the headers in the dictionary's own order: names that differ only in
+				// case end up in one header, whose values must not come in map order
+				respHeaderDict := respHeader.(*value.HashMap)
+				for _, k := range respHeaderDict.GetKeyOrder() {
+					w.Header().Add(k, respHeaderDict.GetValue()[k].String())
 				}
 				w.WriteHeader(int(statusCode.(*value.Number).GetValue()))
 				w.Write([]byte(contentStr))
